@@ -247,7 +247,7 @@ func relationalC04(t *testing.T, r *vkit.Run, sc *Script, res caseResult) (strin
 		if st.Opt != "" || st.TxFrom > 0 {
 			return "", "" // reservation tokens and borrowed transaction ids are shared harness state
 		}
-		if st.Rel == "tie" || st.Stall > 0 || strings.HasSuffix(st.Rel, "~") || strings.HasSuffix(st.Rel, "^") {
+		if st.Rel == "tie" || st.Rel == "alloc-tie" || st.Stall > 0 || strings.HasSuffix(st.Rel, "~") || strings.HasSuffix(st.Rel, "^") {
 			return "", "" // time that passes inside another client's step cannot be kept in the projection
 		}
 	}
